@@ -14,6 +14,7 @@ import (
 	"math"
 	"sort"
 	"strings"
+	"sync"
 
 	"golang.org/x/tools/go/ssa"
 )
@@ -318,7 +319,7 @@ type discharger struct {
 }
 
 func newDischarger(p *Prog) *discharger {
-	cgForBounds = p.CG()
+	registerCG(p)
 	d := &discharger{p: p, cg: p.CG(), memo: map[string]string{}, fieldStores: map[*types.Var][]*ssa.Store{}}
 	for _, fn := range p.Funcs {
 		allInstrs(fn, func(in ssa.Instruction) {
@@ -607,9 +608,17 @@ func lowerBound(fn *ssa.Function, at ssa.Instruction, v ssa.Value) (int64, bool)
 	return best, found
 }
 
-var cgForBounds *CallGraph
+// call graphs by program: several programs (mutants) are analysed concurrently in the thorough tier
+var cgByProg sync.Map // *ssa.Program -> *CallGraph
 
-func cgOf(fn *ssa.Function) *CallGraph { return cgForBounds }
+func registerCG(p *Prog) { cgByProg.Store(p.SSA, p.CG()) }
+
+func cgOf(fn *ssa.Function) *CallGraph {
+	if v, ok := cgByProg.Load(fn.Prog); ok {
+		return v.(*CallGraph)
+	}
+	return &CallGraph{In: map[*ssa.Function][]*CGEdge{}, Out: map[*ssa.Function][]*CGEdge{}}
+}
 
 // impliedBy: does taking edge `taken` of a comparison `x REL c` establish `need` for x?
 func edgeEstablishes(op token.Token, c int64, valueOnLeft bool, taken bool, nd need, unsigned bool) bool {
